@@ -1278,6 +1278,19 @@ func rulePanic(sc panicScope) ruleFn {
 					} else {
 						r.Bad("R7.P2", name, construct, r.P.pos(x.Pos()), "single-result type assertion panics when the dynamic type differs; "+r.ctxNote(fn))
 					}
+				case *ssa.Call, *ssa.Defer, *ssa.Go:
+					// P4 (exit): a call that ends the process is an explicit panic that nothing
+					// can recover — log.Fatal*, os.Exit, log.Panic*, runtime.Goexit (the latter
+					// ends the goroutine the reply is owed by)
+					cn := calleeName(x.(ssa.CallInstruction).Common())
+					if what, ends := processEnding(cn); ends {
+						construct := "call " + strings.TrimPrefix(cn, "invoke:")
+						if reason, ok := useTable(r, panicTable, name+"/"+construct); ok {
+							r.Tabled("R7.P4", name, construct, r.P.pos(ins.Pos()), "panic", reason)
+						} else {
+							r.Bad("R7.P4", name, construct, r.P.pos(ins.Pos()), what+" is reachable in this scope: a failure handled this way takes the whole gateway (every other client's request and subscription) down with it; "+r.ctxNote(fn))
+						}
+					}
 				case *ssa.Lookup, *ssa.MapUpdate:
 					// P7 (hash): a map keyed by an interface type hashes the dynamic value of the
 					// key — a JSON object or list as key panics with `hash of unhashable type`,
@@ -2779,6 +2792,21 @@ func sameCount(a, b ssa.Value) bool {
 	}
 	la, lb := lenArg(a), lenArg(b)
 	return la != nil && lb != nil && (la == lb || sameValue(la, lb))
+}
+
+// processEnding: calls that end the process (or the goroutine) outright.
+func processEnding(callee string) (string, bool) {
+	switch callee {
+	case "os.Exit", "syscall.Exit":
+		return callee + " (ends the process)", true
+	case "runtime.Goexit":
+		return "runtime.Goexit (ends the goroutine without a result)", true
+	case "log.Fatal", "log.Fatalf", "log.Fatalln", "(*log.Logger).Fatal", "(*log.Logger).Fatalf", "(*log.Logger).Fatalln":
+		return callee + " (logs and calls os.Exit(1))", true
+	case "log.Panic", "log.Panicf", "log.Panicln", "(*log.Logger).Panic", "(*log.Logger).Panicf", "(*log.Logger).Panicln":
+		return callee + " (logs and panics)", true
+	}
+	return "", false
 }
 
 // ifaceKeyRisk: m is a map whose key type is an interface and the key used at block b is not
